@@ -183,13 +183,13 @@ pub fn char_context_space(r: &mut Run, name: &str, mask: u32, algs: Vec<Alg>) ->
     let t = r.tier;
     let g = Gamma { seps: seps(), algs, spls: vec![Spl::Hyphen], bws: vec![true, false], indents: vec![("", ""), (">", "")], crlf: vec![false] };
     let bases = g.bases();
-    r.range(name, &format!("{}; each in the texts \"ac cb\", \"cc-c d\" and (c other than space) \"ESC]0;c BEL a b\" (c as payload of a sequence); {}; widths 0..=5, MAX", scalar_desc(t), g.describe()), scalar_space(t), move |i, cx| {
+    r.range(name, &format!("{}; each in the texts \"ac cb\", \"cc-c d\" and (c other than space) \"ESC]0;c BEL a b\", \"ESC]8;;ccc1-2 BEL ab c\" (c as payload of a sequence, in the second one in front of a hyphen between alphanumerics); {}; widths 0..=5, MAX", scalar_desc(t), g.describe()), scalar_space(t), move |i, cx| {
         let c = match scalar_at(t, i) {
             Some(c) => c,
             None => return,
         };
         cx.seq = idx_seq(i);
-        for text in [format!("a{c} {c}b"), format!("{c}{c}-{c} d"), format!("\x1b]0;{c}\x07a b")] {
+        for text in [format!("a{c} {c}b"), format!("{c}{c}-{c} d"), format!("\x1b]0;{c}\x07a b"), format!("\x1b]8;;{c}{c}{c}1-2\x07ab c")] {
             if text.starts_with('\x1b') && c == ' ' {
                 continue; // a space inside a sequence: the ASCII separator splits there by C11 (DESIGN.md §6)
             }
